@@ -14,7 +14,7 @@ RULE = ('one-language caption sets whose captions are 1-3 lines, each line split
         'visible character) and WebVTT output (tags tokenised; a third of the sets let spans reference style '
         'classes of the set - nested references, an own entry overriding the class, an unknown class - resolved '
         'by an own resolver). Plus: every caption any reader returns for '
-        'generated rich documents has balanced style nodes. Non-trivial: a span touches a break or another span.')
+        'generated rich documents has balanced style nodes. DFXP / SAMI round trips of spans that name a style of the set. Non-trivial: a span touches a break or another span.')
 ANCHORS = ['pycaption.dfxp.base:DFXPReader._convert_style', 'pycaption.dfxp.base:_recreate_style',
            'pycaption.dfxp.base:DFXPWriter._recreate_span', 'pycaption.sami:SAMIReader._translate_tag',
            'pycaption.sami:SAMIReader._translate_span', 'pycaption.sami:SAMIReader._translate_css_property',
